@@ -356,6 +356,10 @@ Fixpoint spec_case_run (subject : str) (items : list (list ast * continuation)) 
 (* ------------------------------------------------------------------ *)
 (* ORACLE: clauses about Pattern::is_match / find / rfind               *)
 
+(* the configuration of pathname expansion: both ends anchored, a leading
+   period must be matched explicitly *)
+Definition period_config : config := mkConfig true true true false.
+
 (* a range (a, b) of text is a match admissible under the anchors *)
 Definition range_ok (cfg : config) (p : ast) (text : str) (a b : nat) : bool :=
   Nat.leb a b && Nat.leb b (length text) &&
@@ -454,6 +458,7 @@ Definition node_of_bracket (b : bracket) : option rnode :=
   else if negb (existsb bitem_multi items)
   then omap (fun cs => RS (SClass (b_complement b) cs)) (all_some (map citem_of items))
   else if negb (b_complement b) then omap RAlt (all_some (map alt_of items))
+  else if forallb bitem_multi items then Some (RS SAny)
   else omap (fun cs => RS (SClass true cs))
             (all_some (map citem_of (filter (fun it => negb (bitem_multi it)) items))).
 
@@ -469,19 +474,6 @@ Definition rx_of_ast (cfg : config) (a : ast) : option rx :=
   omap (fun ns => (if anchor_begin cfg then [RStartText] else []) ++ ns ++
                   (if anchor_end cfg then [REndText] else []))
        (all_some (map node_of_atom a)).
-
-(* The translation of a complemented bracket expression drops its
-   multi-character members; if nothing is left the emitted class "[^]" is
-   not closed where it should be.  This shape is excluded. *)
-Definition closed_complement (a : atom) : bool :=
-  match a with
-  | ABracket b =>
-      negb (b_complement b && existsb bitem_multi (b_items b) &&
-            is_nil (filter (fun it => negb (bitem_multi it)) (b_items b)))
-  | _ => true
-  end.
-
-Definition closed_complements (p : ast) : bool := forallb closed_complement p.
 
 (* no collating element of two or more characters anywhere: every element of
    the pattern then consumes exactly one character (outside this domain the
@@ -528,5 +520,5 @@ Definition glob_rx (r : rx) : bool := forallb glob_node r.
 
 (* the patterns of an item, with their parsed forms *)
 Definition item_parsed (pats : list (list pchar)) (asts : list ast) : Prop :=
-  Forall2 (fun p a => parse_pattern p = Some a /\ closed_complements a = true) pats asts.
+  Forall2 (fun p a => parse_pattern p = Some a) pats asts.
 
